@@ -5,7 +5,8 @@
 -/
 import Gama.Proto
 import Gama.Model.Export
-open Gama Gama.Proto Gama.Export Gama.Gen.GkfAttrs
+import Gama.Model.ExportNet
+open Gama Gama.Proto Gama.Export Gama.Gen.GkfAttrs Gama.Gen.GkfDoc
 
 def unhexStr (s : String) : Option String :=
   if s = "-" then some "" else
@@ -82,6 +83,139 @@ def errName : Err → String
   | .badCovMat => "badCovMat" | .missingCovMat => "missingCovMat" | .badVector => "badVector"
   | .illegalElement => "illegalElement" | .emptyCoordsPoint => "emptyCoordsPoint"
 
+/-! ## whole documents: `net <dochex> | H a=v … | T <descr> | P a=v … | O a=v … | pt a=v … | obs a=v … ; el <kind> a=v … ; cov <dim> <band> v … | …`
+    numbers are hex doubles (inside the hex-encoded strings), sexagesimal values `D<hex double of the gon value>` -/
+
+def dropFirst (s : String) : String := String.ofList (s.toList.drop 1)
+
+def fCodec : Codec Float :=
+  { fmt := showFloat, rd := float?, zero := 0.0, isZero := fun x => x == 0.0,
+    neg := fun x => -x, fmtI := fun i => toString i, rdI := fun s => s.trimAscii.toString.toInt?,
+    latOut := fun x => x * 200.0 / 3.14159265358979323846, latIn := fun x => x * 3.14159265358979323846 / 200.0,
+    fmtDeg := fun x => "D" ++ showFloat x,
+    rdDeg := fun s => if s.startsWith "D" then float? (dropFirst s) else none,
+    toSec := fun x => x * 0.324, fromSec := fun x => x * (1.0 / 0.324),
+    pos := fun x => x > 0.0, lt1 := fun x => x < 1.0, ellKnown := fun _ => true,
+    sdDist := fun s d => s * Float.sqrt d }
+
+def par0 : Params Float := ⟨10.0, 0.95, 1000.0, false, true, none, none, none, -1⟩
+
+def splitOnTok (sep : String) : List String → List String → List (List String) → List (List String)
+  | [], cur, acc => (cur.reverse :: acc).reverse
+  | t :: r, cur, acc => if t == sep then splitOnTok sep r [] (cur.reverse :: acc) else splitOnTok sep r (t :: cur) acc
+
+def kvs (ts : List String) : Option (List (String × String)) :=
+  ts.mapM (fun t => match t.splitOn "=" with
+    | [a, v] => (unhexStr v).map (fun s => (a, s))
+    | _ => none)
+
+def typed {α : Type} (f : String → Option α) (l : List (String × String)) : Except Err (List (α × String)) :=
+  l.mapM (fun a => match f a.1 with
+    | some x => .ok (x, a.2)
+    | none => .error .undefinedAttribute)
+
+def covOf (ts : List String) : Option CovDoc :=
+  match ts with
+  | "cov" :: d :: b :: rest => do
+    let dim ← d.toNat?
+    let band ← b.toNat?
+    let xs ← rest.mapM unhexStr
+    pure (dim, band, xs)
+  | _ => none
+
+/-- groups of an item after splitting on `;` : the cluster attributes, the elements, an optional trailing cov -/
+def itemOf (groups : List (List String)) : Except Err DItem :=
+  match groups with
+  | ("pt" :: as) :: _ =>
+    match kvs as with
+    | some l => (typed PAttr.ofName l).map DItem.point
+    | none => .error .illegalElement
+  | (tag :: as) :: rest =>
+    let cov := rest.findSome? covOf
+    let els := rest.filter (fun g => g.head? != some "cov" && g != [])
+    match kvs as with
+    | none => .error .illegalElement
+    | some cas =>
+      if tag == "obs" || tag == "hd" then
+        match els.mapM (fun g => match g with
+            | "el" :: k :: eas => do
+              let e ← elemOf k
+              let l ← eas.mapM parseAttr
+              pure (e, l)
+            | _ => none) with
+        | some l => .ok (if tag == "obs" then DItem.obs cas l cov else DItem.hdiffs l cov)
+        | none => .error .undefinedAttribute
+      else if tag == "co" then
+        match els.mapM (fun g => match g with
+            | "p" :: pas => (kvs pas).bind (fun l => (typed PAttr.ofName l).toOption)
+            | _ => none) with
+        | some l => .ok (DItem.coords cas l cov)
+        | none => .error .undefinedAttribute
+      else if tag == "ve" then
+        match els.mapM (fun g => match g with
+            | "vec" :: vas => vas.mapM parseAttr
+            | _ => none) with
+        | some l => .ok (DItem.vectors l cov)
+        | none => .error .undefinedAttribute
+      else .error .illegalElement
+  | _ => .error .illegalElement
+
+def docOf (secs : List (List String)) : Except Err Doc := do
+  let mut d : Doc := ⟨[], "", [], [], []⟩
+  let mut items : List DItem := []
+  for sec in secs do
+    match sec with
+    | "H" :: as =>
+      match kvs as with
+      | some l => d := { d with net := ← typed NAttr.ofName l }
+      | none => throw .illegalElement
+    | ["T", t] => d := { d with descr := (unhexStr t).getD "" }
+    | "P" :: as =>
+      match kvs as with
+      | some l => d := { d with par := d.par ++ (← typed ParAttr.ofName l) }
+      | none => throw .illegalElement
+    | "O" :: as =>
+      match kvs as with
+      | some l => d := { d with po := l }
+      | none => throw .illegalElement
+    | [] => pure ()
+    | _ => items := items ++ [← itemOf (splitOnTok ";" sec [] [])]
+  pure { d with items := items }
+
+def showKV {α : Type} (nm : α → String) (l : List (α × String)) : String :=
+  String.join (l.map (fun a => " " ++ nm a.1 ++ "=" ++ hexStr a.2))
+
+def attrNameV : Attr → String := attrName
+
+def showCov : Option CovDoc → String
+  | none => ""
+  | some c => " ; cov " ++ toString c.1 ++ " " ++ toString c.2.1 ++ String.join (c.2.2.map (fun x => " " ++ hexStr x))
+
+def showItem : DItem → String
+  | .point as => "pt" ++ showKV PAttr.name as
+  | .obs as els cov => "obs" ++ showKV id as ++ String.join (els.map (fun e => " ; " ++ showElem e)) ++ showCov cov
+  | .hdiffs els cov => "hd" ++ String.join (els.map (fun e => " ; " ++ showElem e)) ++ showCov cov
+  | .coords as pts cov => "co" ++ showKV id as ++ String.join (pts.map (fun p => " ; p" ++ showKV PAttr.name p)) ++ showCov cov
+  | .vectors vs cov => "ve" ++ String.join (vs.map (fun v => " ; vec" ++ showKV attrName v)) ++ showCov cov
+
+def showDoc (d : Doc) : List String :=
+  ["H" ++ showKV NAttr.name d.net, "T " ++ hexStr d.descr, "P" ++ showKV ParAttr.name d.par] ++ d.items.map showItem
+
+/-- model of gama-local's reading + export: parse, remove_inconsistency, export_xml; then the model's reading of its
+    own export once more (must succeed) -/
+def runNet (secs : List (List String)) : String :=
+  match docOf secs with
+  | .error e => "throw " ++ errName e
+  | .ok d =>
+    match parseNet fCodec (fun _ => 0.0) par0 d with
+    | .error e => "throw " ++ errName e
+    | .ok n =>
+      let ex := exportNet fCodec n
+      let again := match parseNet fCodec (fun _ => 0.0) par0 ex with
+        | .ok n2 => if showDoc (exportNet fCodec n2) == showDoc ex then "again same" else "again differs"
+        | .error e => "again throw " ++ errName e
+      "\n".intercalate (showDoc ex ++ [again])
+
 def step (_ : Unit) (line : String) : Unit × String :=
   match tokens line with
   | "obs" :: _doc :: cf :: rest =>
@@ -93,6 +227,7 @@ def step (_ : Unit) (line : String) : Unit × String :=
         ((), "\n".intercalate (("station " ++ hexStr ex.1) :: ex.2.map showElem))
       | .error e => ((), "throw " ++ errName e)
     | _, _ => ((), "bad-op")
+  | "net" :: _doc :: rest => ((), runNet (splitOnTok "|" rest [] []))
   | "dh" :: _doc :: rest =>
     match parseElems rest with
     | some els =>
